@@ -321,8 +321,78 @@ def gen_irred(rng, n):
 FAMILIES = ("rand", "struct", "irred")
 
 
+def gen_sharedexit(rng, n):
+    """Family "sibling loops that share their exits" (added after seeded change
+    C06-8): a dispatch chain enters k loops on one level; every loop leaves
+    through the same two or three exit blocks; a loop may be entered at two
+    different members (two headers).  Reducible or not, always closed."""
+    k = rng.randint(2, 3)
+    nex = rng.randint(2, 3)
+    desc = []
+    names = iter(range(10 ** 6))
+    nm = lambda: str(next(names))
+    entry = nm()
+    exits = []
+    loops = []
+    for _ in range(k):
+        size = rng.randint(2, 3)
+        members = [nm() for _ in range(size)]
+        loops.append(members)
+    exits = [nm() for _ in range(nex)]
+    final = nm()
+    # dispatch chain: entry -> d1 -> d2 ...; each dispatch block enters one loop member
+    # and falls to the next dispatch block; loops with two headers get two dispatchers
+    disp_targets = []
+    for members in loops:
+        heads = [members[0]]
+        if len(members) >= 2 and rng.chance(0.6):
+            heads.append(members[rng.randint(1, len(members) - 1)])
+        for h in heads:
+            disp_targets.append(h)
+    rng.shuffle(disp_targets)
+    dnames = [entry] + [nm() for _ in range(len(disp_targets) - 1)]
+    blocks = {}
+    for i, d in enumerate(dnames):
+        if i + 1 < len(dnames):
+            tg = [disp_targets[i], dnames[i + 1]]
+            if rng.chance(0.5):
+                tg.reverse()
+        else:
+            tg = [disp_targets[i]]
+        blocks[d] = tg
+    for members in loops:
+        # a ring; every member may leave to one of the shared exits; together the
+        # members of a loop use every exit at least once where possible
+        ex_cycle = list(exits)
+        rng.shuffle(ex_cycle)
+        for j, m in enumerate(members):
+            nxt = members[(j + 1) % len(members)]
+            if j < len(ex_cycle) or rng.chance(0.5):
+                e = ex_cycle[j % len(ex_cycle)]
+                tg = [nxt, e] if rng.chance(0.5) else [e, nxt]
+            else:
+                tg = [nxt]
+            blocks[m] = tg
+        if len(members) < len(ex_cycle):
+            # not enough members to use every exit: leave the rest to chance
+            pass
+    for e in exits:
+        blocks[e] = [final] if rng.chance(0.8) else []
+    blocks[final] = []
+    order = dnames + [m for ms in loops for m in ms] + exits + [final]
+    desc = [[name, "basic", blocks[name]] for name in order]
+    if check_closed(desc) is not None:
+        return gen_struct(rng.fork("fallback"), n)
+    return desc
+
+
 def gen_graph(rng, family, n, style="frontend"):
-    if family == "rand":
+    if family == "sharedexit":
+        d = gen_sharedexit(rng.fork("g"), n)
+        # renumber to "0".."n-1" in order
+        m = {name: str(i) for i, (name, _k, _t) in enumerate(d)}
+        d = [[m[a], k, [m[t] for t in tg]] for a, k, tg in d]
+    elif family == "rand":
         d = gen_rand(rng.fork("g"), n)
     elif family == "struct":
         d = gen_struct(rng.fork("g"), n)
